@@ -223,6 +223,9 @@ pub fn hostile(class: &str, peer_ty: &str, seed: u64) -> Vec<u8> {
             m[..m.len() - 5].to_vec()
         }
         "honest_4mib" => rc::message(&[vec![7u8; 4 << 20]]),
+        "one_frame_msgs" => rc::message(&[vec![b'x']]).repeat(3),
+        "unknown_identity_msgs" => rc::message(&[b"nobody".to_vec(), vec![], b"x".to_vec()]).repeat(3),
+        "delimiter_only_msgs" => rc::message(&[vec![]]).repeat(3),
         c if c.starts_with("parts_") => {
             let n: usize = c[6..].parse().unwrap_or(2);
             let mut v = [0x01u8, 0x00].repeat(n - 1);
@@ -610,8 +613,67 @@ fn run_unit_inner(unit: &Value, out: &mut UnitOut) {
                 }
             }
         }
+        ("stream", "proxy") => {
+            // the built-in proxy forwards whatever a peer of either side sends: peer bytes must
+            // not panic it (it may end with an error)
+            let side = s(unit, "side").to_string();
+            out.count(&format!("proxy_side/{side}"));
+            out.count(&format!("class/{}", class_family(&class)));
+            let r = catch_unwind(AssertUnwindSafe(|| sim::run(proxy_stream(out, &side, &class, seed))));
+            if r.is_err() {
+                let (loc, msg) = crate::take_last_panic().unwrap_or_default();
+                if crate::is_harness_location(&loc) {
+                    out.inconclusive.push(format!("harness panic at {loc}: {msg}"));
+                } else {
+                    out.violation(
+                        format!("C03/panic/proxy/{side}/{}", crate::panic_site(&loc)),
+                        format!("proxy(ROUTER, DEALER): bytes of a {side}-side peer (class {class}, after a valid handshake) panic the proxy at {loc}: {msg}"),
+                        unit.clone(),
+                    );
+                }
+            }
+        }
         _ => out.inconclusive.push(format!("unknown unit {unit}")),
     }
+}
+
+async fn proxy_stream(out: &mut UnitOut, side: &str, class: &str, seed: u64) {
+    use zeromq::{DealerSocket, RouterSocket, Socket};
+    let router = RouterSocket::new();
+    let dealer = DealerSocket::new();
+    let (fb, bb) = (router.backend(), dealer.backend());
+    // one well-behaved peer on each side, and the hostile one
+    let front = crate::sock::Peer::attach_backend(fb.clone(), "DEALER", Some(b"front-good")).await;
+    let back = crate::sock::Peer::attach_backend(bb.clone(), "DEALER", Some(b"back-good")).await;
+    let (peer_ty, backend) = match side {
+        "front" => ("DEALER", fb),
+        _ => ("REP", bb),
+    };
+    let bad = match crate::sock::Peer::attach_backend(backend, peer_ty, Some(b"hostile")).await {
+        Ok(p) => p,
+        Err(e) => {
+            out.inconclusive.push(format!("C03 proxy attach: {e}"));
+            return;
+        }
+    };
+    let mut px = Managed::new(zeromq::proxy(router, dealer, None));
+    let bytes = hostile(class, peer_ty, seed);
+    let bytes = if bytes.len() > 300_000 { &bytes[..300_000] } else { &bytes[..] };
+    bad.conn.feed(bytes);
+    for _ in 0..2000 {
+        if let std::task::Poll::Ready(_) = px.poll_once() {
+            out.count("proxy_ended_with_a_result");
+            break;
+        }
+        sim::settle().await;
+        if !px.woken() {
+            break;
+        }
+    }
+    out.evals += 1;
+    out.nontrivial += 1;
+    out.count("proxy_streams");
+    let _ = (front, back);
 }
 
 /// `zmqmon child c03 <units.json>`: prints `START i` / `END i <json>` lines.
@@ -1005,6 +1067,18 @@ impl Prop for C03 {
                 }
             }
         }
+        // the built-in proxy as the consumer of a peer's bytes, either side
+        for side in ["front", "back"] {
+            for class in CLASSES {
+                if hostile(class, "DEALER", 0).len() > 400_000 {
+                    continue;
+                }
+                units.push(json!({"kind": "stream", "level": "proxy", "side": side, "class": class, "seed": seeds[0]}));
+            }
+            for extra in ["one_frame_msgs", "unknown_identity_msgs", "delimiter_only_msgs"] {
+                units.push(json!({"kind": "stream", "level": "proxy", "side": side, "class": extra, "seed": seeds[0]}));
+            }
+        }
         for chunk in units.chunks(25) {
             groups.push(json!({"kind": "group", "units": chunk}));
         }
@@ -1074,6 +1148,7 @@ impl Prop for C03 {
         vec![
             ("exhaustive_streams", tier.pick(1_000_000, 10_000_000)),
             ("rig_healthy_peers_served_beside_an_open_hostile_connection", 50),
+            ("proxy_streams", 100),
             ("reached_command_parser", 10_000),
             ("reached_long_size_path", 40),
             ("multipart_over_1000_frames", 4),
